@@ -14,11 +14,11 @@ import (
 	"encoding/json"
 	"fmt"
 	"go/ast"
+	"go/parser"
 	"go/token"
 	"go/types"
 	"os"
 	"path/filepath"
-	"regexp"
 	"sort"
 	"strings"
 
@@ -192,6 +192,20 @@ func liftOne(pkg *packages.Package, repo string, s liftSpec) (string, error) {
 	ftype := types.TypeString(info.TypeOf(lit), qual)
 	fmt.Fprintf(&decl, "func zzLift_%s(env *zzEnv_%s) %s {\n\treturn %s\n}\n", s.Name, s.Name, ftype, body)
 	code := decl.String()
+	// identifiers used as package qualifiers in the generated code (comments do not count)
+	usedQual := map[string]bool{}
+	if pf, err := parser.ParseFile(token.NewFileSet(), "lifted.go", "package p\n"+code, 0); err == nil {
+		ast.Inspect(pf, func(n ast.Node) bool {
+			if se, ok := n.(*ast.SelectorExpr); ok {
+				if id, ok := se.X.(*ast.Ident); ok {
+					usedQual[id.Name] = true
+				}
+			}
+			return true
+		})
+	} else {
+		return "", fmt.Errorf("generated code does not parse: %v", err)
+	}
 	var imps []string
 	for _, im := range file.Imports {
 		path := strings.Trim(im.Path.Value, "\"")
@@ -201,7 +215,7 @@ func liftOne(pkg *packages.Package, repo string, s liftSpec) (string, error) {
 		} else if p := pkg.Imports[path]; p != nil {
 			name = p.Name
 		}
-		if regexp.MustCompile(`\b` + regexp.QuoteMeta(name) + `\.`).MatchString(code) {
+		if usedQual[name] {
 			if im.Name != nil {
 				imps = append(imps, fmt.Sprintf("\t%s %s", im.Name.Name, im.Path.Value))
 			} else {
